@@ -1384,15 +1384,32 @@ def o_graph_cover(case, T):
 
 
 # ============================================================================ big lon/lat destination tiles (second stage)
-BIGTILE_SETUPS = [("4326", "3577", (133.0, -30.0)), ("4283", "3577", (133.0, -30.0)), ("4326", "3035", (12.0, 52.0)), ("4326", "6933", (25.0, 40.0)), ("4326", "32633", (15.0, 50.0))]
+BIGTILE_SETUPS = [("4326", "3577", (133.0, -30.0)), ("4283", "3577", (133.0, -30.0)), ("4326", "3035", (12.0, 52.0)), ("4326", "6933", (25.0, 40.0)), ("4326", "32633", (15.0, 50.0)),
+                  ("4326", "3413", (-45.0, 74.0)), ("4326", "3035", (15.0, 66.0))]
 
 
 @st.composite
 def s_graph_bigtile(draw):
     k = draw(st.integers(0, len(BIGTILE_SETUPS) - 1))
-    return {"setup": k, "res": draw(st.sampled_from([0.05, 0.1, 0.025])), "span": [draw(st.sampled_from([16.0, 24.0, 36.0])), draw(st.sampled_from([8.0, 12.0, 20.0]))],
+    # (coarse global grids too: pixels of 1-5 degrees, destination tiles of only 2-8 such pixels)
+    return {"setup": k, "res": draw(st.sampled_from([0.05, 0.1, 0.025, 1.0, 2.5, 5.0])), "span": [draw(st.sampled_from([16.0, 24.0, 36.0])), draw(st.sampled_from([8.0, 12.0, 20.0]))],
             "tdeg": draw(st.sampled_from([8.0, 12.0, 18.0, 40.0])), "spx": draw(st.sampled_from([2500.0, 5000.0, 10000.0])), "st": draw(st.sampled_from([6, 10, 16])),
-            "off": [draw(st.floats(-3.0, 3.0)), draw(st.floats(-3.0, 3.0))], "flipy": draw(st.booleans())}
+            "off": [draw(st.floats(-3.0, 3.0)), draw(st.floats(-3.0, 3.0))], "flipy": draw(st.booleans()),
+            # probe: a small fine source (2-10 km tiles) sitting on the middle of one side of a destination tile, where the
+            # sag of that side is largest
+            "probe": draw(st.sampled_from([None, None, [draw(st.integers(0, 3)), draw(st.integers(0, 3)), draw(st.sampled_from(["top", "bottom"])), draw(st.sampled_from([100.0, 250.0, 500.0]))]]))}
+
+
+def e_graph_coarse_probe(tier):
+    """Destination tiles made of a handful of pixels several degrees wide (coarse global products), a fine source
+    (2-10 km tiles) on the middle of a tile side - in every setup, for both sides, deterministically."""
+    for k in range(len(BIGTILE_SETUPS)):
+        for res in (2.5, 5.0):
+            for tpx in (4, 8, 3):
+                for side in ("top", "bottom"):
+                    for spx in ((100.0, 500.0) if tier == "quick" else (100.0, 250.0, 500.0)):
+                        yield {"setup": k, "res": res, "span": [40.0, 20.0], "tdeg": tpx * res, "spx": spx, "st": 20, "off": [0.0, 0.0], "flipy": False,
+                               "probe": [1 if side == "top" else 0, 1, side, spx]}
 
 
 def o_graph_bigtile(case, T):
@@ -1411,13 +1428,24 @@ def o_graph_bigtile(case, T):
     nx, ny = int(round(sx_ / res)), int(round(sy_ / res))
     Ad = Affine(res, 0, lon0, 0, -res, lat1) if not case["flipy"] else Affine(res, 0, lon0, 0, res, lat1 - ny * res)
     dst = GeoBox((ny, nx), Ad, mk_crs_spec({"label": la, "spell": "int"}))
-    t = max(8, int(round(case["tdeg"] / res)))
+    t = max(8 if res < 1 else 2, int(round(case["tdeg"] / res)))
     dgbt = GeoboxTiles(dst, (t, t))
     # source grid covering the destination's centre region
     cx, cy = _tr("4326", lb).transform(clon + case["off"][0], clat + case["off"][1])
     spx = case["spx"]
     half = min(2.0e6, 0.6 * max(sx_, sy_) * 111e3 / 2)
     sn = int(min(480, 2 * half / spx))
+    if case.get("probe"):
+        pty, ptx, side, spx = case["probe"]
+        nty_, ntx_ = -(-ny // t), -(-nx // t)
+        pty, ptx = pty % nty_, ptx % ntx_
+        # the middle of a *pixel* edge on that side (a vertex of the pixel lattice is the last place to look: any outline
+        # sampled per pixel is exact there)
+        mid_px = (min(nx - 0.5, ptx * t + (t // 2) + 0.5), pty * t if side == "top" else min(ny, (pty + 1) * t))
+        mlon, mlat = Ad * mid_px
+        cx, cy = _tr(la, lb).transform(mlon, mlat)
+        sn = 320
+        T.cls("probe_on_a_tile_side")
     As = Affine(spx, 0, cx - spx * sn / 2, 0, -spx, cy + spx * sn / 2)
     src = GeoBox((sn, sn), As, mk_crs_spec({"label": lb, "spell": "int"}))
     stt = case["st"]
@@ -1437,7 +1465,18 @@ def o_graph_bigtile(case, T):
         x, y = float(P[k_, 0]), float(P[k_, 1])
         ty, tx = int(y // t), int(x // t)
         hx, hy = min(nx, (tx + 1) * t), min(ny, (ty + 1) * t)
-        if min(x - tx * t, hx - x, y - ty * t, hy - y) < 1.5:
+        # well inside: 1.5 destination pixels for fine grids; for coarse pixels (degrees wide) the distance is taken
+        # in the source's units instead - one and a half source tiles
+        if res < 1:
+            mx_ = my_ = 1.5
+        else:
+            # 1.5 source tiles; 0.6 of a source tile for the probes (a tile whose centre lies that far inside is more
+            # than half inside - far beyond a sliver - and beyond the sag of a 16-segment outline of these tiles)
+            m_m = (0.6 if case.get("probe") else 1.5) * stt * spx
+            lat_ = (Ad * (x, y))[1]
+            my_ = m_m / (res * 111.2e3)
+            mx_ = m_m / (res * 111.2e3 * max(0.05, math.cos(math.radians(lat_))))
+        if min(x - tx * t, hx - x) < mx_ or min(y - ty * t, hy - y) < my_:
             continue
         ndec += 1
         if (int(jy[k_]), int(jx[k_])) not in listed.get((ty, tx), ()):
@@ -1718,6 +1757,7 @@ def build(chk: Check) -> None:
     chk.sub("graph_linear", o_graph_linear, cov={"quick": 300, "thorough": 20000}, strategy=s_graph_linear(), n={"quick": 800, "thorough": 30000}, budget_s={"quick": 60, "thorough": 140})
     chk.sub("graph_rotated", o_graph_rot, strategy=s_graph_rot(), n={"quick": 300, "thorough": 12000}, budget_s={"quick": 60, "thorough": 110})
     chk.sub("graph_continental_cover", o_graph_cover, strategy=s_graph_cover(), n={"quick": 24, "thorough": 800}, budget_s={"quick": 70, "thorough": 300}, shrink=False)
+    chk.sub("graph_coarse_tiles_probe", o_graph_bigtile, enum=e_graph_coarse_probe, exhaustive_tiers=("quick", "thorough"), budget_s={"quick": 80, "thorough": 300})
     chk.sub("graph_big_lonlat_tiles", o_graph_bigtile, strategy=s_graph_bigtile(), n={"quick": 24, "thorough": 800}, budget_s={"quick": 70, "thorough": 300}, shrink=False)
     chk.sub("graph_projection_rim", o_graph_rim, enum=e_graph_rim, exhaustive_tiers=("quick", "thorough"), budget_s={"quick": 80, "thorough": 400})
     chk.sub("graph_continental", o_graph_other, strategy=s_graph_other(continental=True), n={"quick": 150, "thorough": 6000}, budget_s={"quick": 60, "thorough": 200}, shrink=False)
